@@ -1,0 +1,139 @@
+//go:build verif
+
+// Contracts for the acv verifier (/verif). Comment-only file: no executable code.
+
+package crypto
+
+//@ spec containerLen(d []byte) uint64 = le64(d[3:11])
+//@ spec isContainer(d []byte) bool = 12 < len(d) && d[0] == TagSymbol && d[1] == TagSymbol && d[2] == TagSymbol
+
+//@ func SerializeEncryptedData(encrypted []byte, envelopeID byte) (out []byte, err error)
+//@   props C01 C03 C14
+//@   safety
+//@   ensures empty: (err != nil) <==> (len(encrypted) == 0)
+//@   ensures on-error: err != nil ==> out == nil
+//@   ensures length: err == nil ==> len(out) == 12 + len(encrypted) && containerLen(out) == uint64(len(out))
+//@   ensures header: err == nil ==> out[0] == TagSymbol && out[1] == TagSymbol && out[2] == TagSymbol && out[11] == envelopeID
+//@   ensures payload: err == nil ==> forall(i, 0, len(encrypted), out[12+i] == encrypted[i])
+//@   ensures fresh-out: err == nil ==> fresh(out)
+//@   modifies nothing
+
+//@ func getSerializedContainerLength(encrypted []byte) (n uint64, err error)
+//@   props C01 C03 C14
+//@   safety
+//@   requires 12 <= len(encrypted)
+//@   ensures err == nil ==> n == containerLen(encrypted) - 12 && n <= uint64(len(encrypted) - 12)
+//@   modifies nothing
+
+//@ func validateSerializedContainer(data []byte) (id byte, err error)
+//@   props C01 C03 C14
+//@   safety
+//@   ensures err == nil ==> isContainer(data) && id == data[11]
+//@   modifies nothing
+
+//@ func matchOldContainer(data []byte) (id byte, n int, err error)
+//@   props C01 C03 C14
+//@   safety
+//@   ensures err == nil ==> 18 <= n && n <= len(data)
+//@   modifies nothing
+
+//@ func getEnvelopeIDFromData(data []byte) (id byte, err error)
+//@   props C01 C03 C14
+//@   safety
+//@   ensures err == nil ==> isContainer(data) && id == data[11]
+//@   modifies nothing
+
+//@ func DeserializeEncryptedData(encrypted []byte) (out []byte, id byte, err error)
+//@   props C01 C03 C14
+//@   safety
+//@   ensures on-error: err != nil ==> out == nil
+//@   ensures shape: err == nil ==> sameslice(out, encrypted) || (isContainer(encrypted) && id == encrypted[11] && uint64(len(out)) == containerLen(encrypted) - 12 && len(out) <= len(encrypted) - 12)
+//@   ensures payload: err == nil && !sameslice(out, encrypted) ==> forall(i, 0, len(out), out[i] == encrypted[12+i])
+
+//@ func ExtractSerializedContainer(data []byte) (n int, out []byte, err error)
+//@   props C01 C03 C14
+//@   safety
+//@   ensures bounds: err == nil ==> 12 < n && n <= len(data)
+//@   ensures on-error: err != nil ==> n == 0 && out == nil
+//@   ensures container: err == nil ==> isContainer(out)
+
+//@ func (r RegistryHandler) MatchDataSignature(data []byte) (ok bool)
+//@   props C01 C03 C14
+//@   safety
+
+//@ func (r RegistryHandler) DecryptWithHandler(handler ContainerHandler, data []byte, context *base.DataProcessorContext) (out []byte, err error)
+//@   props C01 C02 C03 C14
+//@   safety
+//@   ensures err != nil ==> out == nil
+//@   at call ContainerHandler.Decrypt : assert arg[1] == context && sameslice(arg[0], ret(DeserializeEncryptedData)[0])
+
+//@ func (r RegistryHandler) Process(data []byte, context *base.DataProcessorContext) (out []byte, err error)
+//@   props C01 C02 C03 C14
+//@   safety
+//@   ensures err != nil ==> out == nil
+//@   at call DecryptWithHandler : assert arg[2] == context && sameslice(arg[1], data)
+
+//@ func (r RegistryHandler) EncryptWithHandler(handler ContainerHandler, id []byte, data []byte) (out []byte, err error)
+//@   props C01 C02 C14
+//@   safety
+//@   ensures pass-through: err == nil && !fresh(out) ==> sameslice(out, data)
+//@   at call ContainerHandler.EncryptWithClientID : assert sameslice(arg[0], id) && sameslice(arg[1], data)
+
+//@ func (handler AcraBlockHandler) MatchDataSignature(bytes []byte) (ok bool)
+//@   props C01 C03 C14
+//@   safety
+
+//@ func (handler AcraBlockHandler) Decrypt(data []byte, context *base.DataProcessorContext) (out []byte, err error)
+//@   props C01 C02 C03 C14
+//@   safety
+//@   at call base.AccessContextFromContext : assert arg[0] == context.Context
+//@   at call AccessContext.GetClientID : assert recv == ret(base.AccessContextFromContext)[0]
+//@   at call DataEncryptorKeyStore.GetClientIDSymmetricKeys : assert recv == context.Keystore && sameslice(arg[0], ret(AccessContext.GetClientID)[0])
+//@   at call AcraBlock.Decrypt : assert sameslice(arg[0], ret(DataEncryptorKeyStore.GetClientIDSymmetricKeys)[0]) && ret(DataEncryptorKeyStore.GetClientIDSymmetricKeys)[1] == nil
+
+//@ func (handler AcraBlockHandler) EncryptWithClientID(clientID []byte, data []byte, context *encryptor.DataEncryptorContext) (out []byte, err error)
+//@   props C01 C02 C14
+//@   safety
+//@   at call DataEncryptorKeyStore.GetClientIDSymmetricKey : assert recv == context.Keystore && sameslice(arg[0], clientID)
+//@   at call acrablock.CreateAcraBlock : assert sameslice(arg[0], data) && sameslice(arg[1], ret(DataEncryptorKeyStore.GetClientIDSymmetricKey)[0]) && ret(DataEncryptorKeyStore.GetClientIDSymmetricKey)[1] == nil
+
+//@ func (handler AcraStructHandler) MatchDataSignature(bytes []byte) (ok bool)
+//@   props C01 C03 C14
+//@   safety
+
+//@ func (handler AcraStructHandler) Decrypt(data []byte, context *base.DataProcessorContext) (out []byte, err error)
+//@   props C01 C02 C03 C14
+//@   safety
+//@   at call base.AccessContextFromContext : assert arg[0] == context.Context
+//@   at call AccessContext.GetClientID : assert recv == ret(base.AccessContextFromContext)[0]
+//@   at call DataEncryptorKeyStore.GetServerDecryptionPrivateKeys : assert recv == context.Keystore && sameslice(arg[0], ret(AccessContext.GetClientID)[0])
+//@   at call acrastruct.DecryptRotatedAcrastruct : assert sameslice(arg[0], data) && sameslice(arg[1], ret(DataEncryptorKeyStore.GetServerDecryptionPrivateKeys)[0]) && ret(DataEncryptorKeyStore.GetServerDecryptionPrivateKeys)[1] == nil
+
+//@ func (handler AcraStructHandler) EncryptWithClientID(clientID []byte, data []byte, context *encryptor.DataEncryptorContext) (out []byte, err error)
+//@   props C01 C02 C14
+//@   safety
+//@   at call DataEncryptorKeyStore.GetClientIDEncryptionPublicKey : assert recv == context.Keystore && sameslice(arg[0], clientID)
+//@   at call acrastruct.CreateAcrastruct : assert sameslice(arg[0], data) && arg[1] == ret(DataEncryptorKeyStore.GetClientIDEncryptionPublicKey)[0] && ret(DataEncryptorKeyStore.GetClientIDEncryptionPublicKey)[1] == nil
+
+//@ func (d DecryptHandler) OnCryptoEnvelope(ctx context.Context, container []byte) (out []byte, err error)
+//@   props C01 C02 C03 C14
+//@   safety
+//@   ensures never-fails: err == nil
+//@   ensures damaged-unchanged: ret(DataProcessor.Process)[1] != nil ==> sameslice(out, container)
+//@   at call DataProcessor.Process : assert sameslice(arg[0], container) && arg[1].Context == ctx && arg[1].Keystore == d.keyStore
+
+//@ func (recognizer *EnvelopeDetector) OnCryptoEnvelope(ctx context.Context, container []byte) (out []byte, err error)
+//@   props C01 C03 C14 C15
+//@   safety
+//@   at call EnvelopeCallbackHandler.OnCryptoEnvelope : assert arg[0] == ctx && sameslice(arg[1], container)
+
+//@ func (recognizer *EnvelopeDetector) OnColumn(ctx context.Context, inBuffer []byte) (outCtx context.Context, out []byte, err error)
+//@   props C01 C03 C14 C15
+//@   safety
+//@   loop 0 invariant 0 <= inIndex && inIndex <= len(inBuffer)
+//@          decreases len(inBuffer) - inIndex
+//@   loop 1 invariant 0 <= inIndex && inIndex <= len(inBuffer)
+//@          invariant $n < len(recognizer.callbacks) ==> inIndex == beginTagIndex && inIndex + 3 <= len(inBuffer)
+//@          invariant inIndex >= beginTagIndex
+//@          invariant $n == len(recognizer.callbacks) ==> inIndex > beginTagIndex
+//@   ensures err != nil ==> sameslice(out, inBuffer)
